@@ -225,6 +225,26 @@ func (m *dbModel) addSource(g string, v ssa.Value, pos token.Pos) {
 			return
 		}
 	}
+	// a field of a local record that was filled from constants and description fields
+	// (`seqs = pasteSeqs{enable: t.ti.EnablePaste, …}` … `t.enablePaste = seqs.enable`): each of them
+	if srcs := localTableColumn(v); len(srcs) > 0 {
+		all := true
+		for _, src := range srcs {
+			if _, isC := constString(src); isC {
+				continue
+			}
+			if r2, _, ok2 := loadedField(src); ok2 && r2.Owner == "terminfo.Terminfo" {
+				continue
+			}
+			all = false
+		}
+		if all {
+			for _, src := range srcs {
+				m.addSource(g, src, pos)
+			}
+			return
+		}
+	}
 	if _, isParam := v.(*ssa.Parameter); isParam && g == "title" {
 		return
 	}
